@@ -24,6 +24,8 @@ import OtterVerif.Conc.TableSkeleton
 import OtterVerif.Lin.Check
 import OtterVerif.Conc.Resize
 import OtterVerif.Conc.Bucket
+import OtterVerif.Proofs.MapGen
+import OtterVerif.Pin.MapSites
 
 namespace OtterVerif.Props.C15
 open OtterVerif OtterVerif.Spec
@@ -140,5 +142,33 @@ theorem c15_chain_invariant (w : Nat) (h2 : Nat → Nat) (hw : 0 < w) {s : Conc.
 /-! ### Non-vacuity -/
 example : (Gen.Swar.h2 0xffffffffffffffff).toNat = 127 := by decide
 example : find (put [] 3 { val := 1, weight := 1, exp := 0, ref := 0 }) 3 ≠ none := by decide
+
+/-! ### The table copy of `resize`, over the regenerated arithmetic of internal/hashmap/map.go -/
+
+/-- the parallel copy hands every source bucket to exactly one goroutine: for every table length on the parallel path and
+    every processor count (also those that do not divide the table length), every index below tableLen lies in one
+    goroutine's range [c*chunkSize, min((c+1)*chunkSize, tableLen)), and the ranges of different goroutines do not overlap -/
+theorem c15_gen_parallel_copy_covers (procs tableLen : BitVec 64) (hp : procs.toNat < 2 ^ 31) (hn : tableLen.toNat < 2 ^ 31)
+    (hpar : 128 ≤ tableLen.toNat) (i : Nat) (hi : i < tableLen.toNat) (chunks cs : BitVec 64)
+    (hch : chunks = Gen.MapSites.Map_resize_a9 (Gen.MapSites.Map_resize_a8 procs tableLen))
+    (hcsdef : cs = Gen.MapSites.Map_resize_a10 chunks tableLen) :
+    (∃ c : Nat, c < chunks.toNat ∧
+      (Gen.MapSites.Map_resize_g0_0 (BitVec.ofNat 64 c) cs).toNat ≤ i ∧
+      i < (Gen.MapSites.Map_resize_g0_1 (BitVec.ofNat 64 c) cs tableLen).toNat) ∧
+    (∀ c d : Nat, c < d → d < chunks.toNat →
+      (Gen.MapSites.Map_resize_g0_1 (BitVec.ofNat 64 c) cs tableLen).toNat ≤ (Gen.MapSites.Map_resize_g0_0 (BitVec.ofNat 64 d) cs).toNat) :=
+  Proofs.MapGen.parallel_copy_covers procs tableLen hp hn hpar i hi chunks cs hch hcsdef
+
+/-- both copy loops run over the table that is current AFTER the resizing flag was won (`tableLen = len(table.buckets)`
+    with `table := m.table.Load()`), not over the table the caller had looked at: the loser of a resize race copies the
+    whole current table -/
+theorem c15_gen_copy_bounds_current_table :
+    Gen.MapSites.siteParams.lookup "Map_resize_c10" = some ["i", "tableLen"] ∧
+    Gen.MapSites.siteParams.lookup "Map_resize_a2" = some ["len_table_buckets"] ∧
+    Gen.MapSites.siteParams.lookup "Map_resize_g0_1" = some ["c", "chunkSize", "tableLen"] ∧
+    (∀ i n : BitVec 64, Gen.MapSites.Map_resize_c10 i n = BitVec.slt i n) := by
+  rw [Pin.MapSites.siteParams_pin]
+  exact ⟨by rfl, by rfl, by rfl, fun _ _ => rfl⟩
+
 
 end OtterVerif.Props.C15
